@@ -35,7 +35,7 @@ let op c =
             OCall (f, List.map (fun (n, v) -> IIn (n, v)) ps, want)
   | ":C" -> let f = n_tok (next c) in let its = counted c item in let want = bool_tok (next c) in OCall (f, its, want)
   | ":chk" -> OCheck | ":clr" -> OClear | ":strict" -> OStrict | ":ign" -> OIgnoreOtherCalls
-  | ":en" -> OEnable | ":dis" -> ODisable | ":left" -> OLeft
+  | ":en" -> OEnable | ":dis" -> ODisable | ":left" -> OLeft | ":post" -> OPost
   | t -> raise (Bad ("op " ^ t))
 (* ":s <scope>" before an operation: the operation is made on mock("s<scope>") instead of mock() *)
 let sop c = if peek c = Some ":s" then (ignore (next c); let s = n_tok (next c) in let o = op c in (s, o)) else (N0, op c)
@@ -54,13 +54,15 @@ let pkind = function
   | FOutType (f, p) -> Printf.sprintf ":otype %s %s" (pn f) (pn p)
   | FObjectUnexpected f -> Printf.sprintf ":ounexpected %s 0" (pn f)
 let ppairs l = String.concat " " (Printf.sprintf "%x" (List.length l) :: List.map (fun (a, b) -> pn a ^ " " ^ pn b) l)
+let pfailure fl = String.concat " " [pkind fl.f_kind; ppairs fl.f_unf; ppairs fl.f_ful]
 let pobs o =
   let f = match o.o_fail with
     | None -> "~"
-    | Some (i, fl) -> String.concat " " [pn i; pkind fl.f_kind; ppairs fl.f_unf; ppairs fl.f_ful] in
+    | Some (i, fl) -> String.concat " " [pn i; pfailure fl] in
   String.concat " " (f :: Printf.sprintf "%x" (List.length o.o_rets) :: List.map (function None -> ":n" | Some v -> pvalue v) o.o_rets
                      @ Printf.sprintf "%x" (List.length o.o_outs) :: List.map pbytes o.o_outs
-                     @ Printf.sprintf "%x" (List.length o.o_left) :: List.map pbool o.o_left)
+                     @ Printf.sprintf "%x" (List.length o.o_left) :: List.map pbool o.o_left
+                     @ Printf.sprintf "%x" (List.length o.o_post) :: List.map pfailure o.o_post)
 (* parse an observation back (for the oracle) *)
 let kind_of c =
   let k = next c in let a = next c in let b = next c in
@@ -87,12 +89,18 @@ let obs_of os =
   let rets = counted c (fun c -> if peek c = Some ":n" then (ignore (next c); None) else Some (value c)) in
   let outs = counted c (fun c -> bytes_tok (next c)) in
   let left = counted c (fun c -> bool_tok (next c)) in
-  if not (at_end c) then raise (Bad "trailing tokens") else { o_fail = fail; o_rets = rets; o_outs = outs; o_left = left }
+  let post = counted c (fun c -> let k = kind_of c in let u = pairs c in let f = pairs c in { f_kind = k; f_unf = u; f_ful = f }) in
+  if not (at_end c) then raise (Bad "trailing tokens") else { o_fail = fail; o_rets = rets; o_outs = outs; o_left = left; o_post = post }
 let scenario ts =
   let o = ops { rest = ts } in
   if not (valid o) then raise (Bad "value out of range of its type / output buffer size") else o
 let run_line ts = pobs ((if Sys.getenv_opt "C08_OLD" <> None then runw_old else runw) (scenario ts))
 (* C08_JUDGED=1: answer "is the scenario judged by the spec" instead (coverage statistics of checks/C08.py) *)
 let spec_line ts os =
-  if Sys.getenv_opt "C08_JUDGED" <> None then (match parsew (scenario ts) with Some k -> judgedw k | None -> false)
+  if Sys.getenv_opt "C08_JUDGED" <> None then
+    (match parsew (scenario ts) with
+     | Some k -> judgedw k
+     | None -> (match post_to_check (scenario ts) with
+                | Some ops' -> (match parsew ops' with Some k -> judgedw k | None -> false)
+                | None -> false))
   else specw (scenario ts) (obs_of os)
